@@ -31,6 +31,8 @@ def summarize(res, show=3):
             k = ("replay-mismatch", tag); cnt[k] += 1; ex[k].append(r["id"])
         for ib in r["ind_bad"]:
             k = ("ind-bad", tag); cnt[k] += 1; ex[k].append((r["id"], ib["values"], ib["v"]["ind"]))
+        for ib in r["buf_bad"]:
+            k = ("buf-bad", tag, ib["kind"]); cnt[k] += 1; ex[k].append((r["id"], ib["reported"], ib["v"]["hist"]))
         if r["inconclusive"]:
             cnt[("inconclusive", tag)] += r["inconclusive"]
         d = r.get("default")
